@@ -32,6 +32,13 @@ def main():
         if not os.path.exists(os.path.join(d, "patch.diff")):
             continue
         sh("git checkout -q -- . && git clean -fdq -e out", wt)
+        default_dir = sys.argv[3]
+        try:
+            demo_dir = (json.load(open(os.path.join(d, "meta.json"))).get("demo_dir") or default_dir).strip("/")
+        except Exception:
+            demo_dir = default_dir
+        if demo_dir in ("", "root"):
+            demo_dir = "."
         demo_dst = os.path.join(wt, demo_dir, "zz_seed_demo_test.go")
         # demo on the clean tree
         shutil.copy(os.path.join(d, "demo_test.go"), demo_dst)
